@@ -621,7 +621,7 @@ def run_check(prop, tier, seed):
         cov = ev["coverage"]
         cov["obligations_in_cone"] = cov.pop("obligations"); cov["obligations_discharged"] = cov.pop("discharged")
     # evidence/ only ever describes runs against /repo itself; runs against another tree (seeded / mutated scratch copies) write elsewhere
-    evdir = os.path.join(VERIF, "evidence") if os.path.abspath(REPO) == "/repo" else os.path.join(BUILD, "evidence-other-repo")
+    evdir = os.path.join(VERIF, "evidence") if (os.path.abspath(REPO) == "/repo" and not os.environ.get("VERIF_NO_EVIDENCE")) else os.path.join(BUILD, "evidence-other-repo")
     os.makedirs(evdir, exist_ok=True)
     with open(os.path.join(evdir, prop.id + ".json"), "w") as f: json.dump(ev, f, indent=1, default=str)
     for l in lines: print(l)
